@@ -45,6 +45,7 @@ type Op struct {
 	Ext   []int64 `json:"ext,omitempty"`
 	Drops int     `json:"drops,omitempty"`
 	First int64   `json:"first,omitempty"`
+	Empty bool    `json:"empty,omitempty"` // BLK: the block carries zero samples per channel
 }
 
 // Case is a configuration plus a history.
@@ -490,6 +491,7 @@ type FaultObs struct {
 	Writers [][3]bool
 	Open    int // channel data files (not side files) still open below the scratch root
 	Stored  bool
+	Active  bool // ComputeWritingState().Active after the faulty STOP
 	Reply   string
 }
 
@@ -503,7 +505,7 @@ func (s *Session) FaultStop() *FaultObs {
 	err, hung := answered(func() error {
 		return s.RPC.SC.WriteControl(&dastard.WriteControlConfig{Request: "STOP"}, &reply)
 	})
-	f := &FaultObs{Writers: s.Writers()}
+	f := &FaultObs{Writers: s.Writers(), Active: s.Reported().Active}
 	if hung {
 		f.Reply = "never answered"
 		f.Open = -1
@@ -685,6 +687,10 @@ func (s *Session) Blk(o Op) string {
 	chans := make([][]uint16, n)
 	signed := make([]bool, n)
 	for i := range chans {
+		if o.Empty {
+			chans[i] = []uint16{}
+			continue
+		}
 		chans[i] = make([]uint16, BlockN)
 		for j := range chans[i] {
 			chans[i][j] = 1000
